@@ -47,10 +47,26 @@ PROPS = {
 }
 
 MANIFEST_TEXT = {
-    "C13": dict(
-        text="(under construction)",
-        design_ref="DESIGN.md section 3, C13", note="see evidence", technique="Lean 4 proof over a hand model + differential correspondence under ASan/UBSan"),
     "C12": dict(
-        text="(under construction)",
-        design_ref="DESIGN.md section 3, C12", note="see evidence", technique="Lean 4 proof over a hand model + differential correspondence under ASan/UBSan"),
+        text="Theorems (Lean kernel; every value of every built-in integer type incl. the most negative, every base 2..36, both letter cases): from_int/from_uint return "
+             "the canonical digit string (Spec.Digits.Canonical: digits below the base, positional value, no leading zero - shown unique), ST::format and string_stream "
+             "return the same text for bases 10/16/8/2, no printer has undefined behaviour or leaves the digits+1 buffer (base 2 of the widest value is the tight case), "
+             "and parsing the text with any to_* member of the same signedness and at least the same width returns the value with ok and full_match. Flag meaning and "
+             "narrowing are proved over a transcription of glibc's strtol, which is validated (not proved) against this platform's libc on every run. The std::abs "
+             "undefined behaviour at INT_MIN/LONG_MIN/LLONG_MIN in ST::format and string_stream was found by this check (UBSan + failing no_ub) and repaired.",
+        design_ref="DESIGN.md section 3, C12",
+        note="Trusted: Lean kernel + 3 standard axioms, Spec/Digits.lean as the meaning of 'canonical digit string' and 'numeral prefix', the num harness (ASan/UBSan), "
+             "the strtol transcription (validated against libc through all 20 to_* overloads and directly on every parsing case). LP64 platform.",
+        technique="Lean 4 proof over a hand model + exhaustive 16-bit x 35 bases x 2 cases differential correspondence, directed/random wider values, exhaustive short-string parsing vs libc"),
+    "C13": dict(
+        text="Theorems (Lean kernel; libc's rendering and parsing are parameters): for every format_spec with an int precision the library passes exactly the corresponding "
+             "printf conversion (% [+] [.precision] g/f/e/E), assembled within its 32-byte buffer (at most 15 bytes needed); the output is libc's rendering of it padded to the "
+             "field width (right-aligned unless '<'), never truncated however long the rendering is; float arguments are promoted exactly; from_float/from_double/string_stream "
+             "give the %g (or requested) rendering and bad_format for letters outside efgEFG; to_float/to_double carry strtof/strtod's value with ok = consumed > 0 and "
+             "full_match = consumed = size; no value or precision aborts. The 64-byte-buffer abort ('Format buffer too small': {f} of 1e100, from_double(1e100,'f'), {.62f}, "
+             "{.58e}) was found by this check and repaired (heap buffer of the reported size). Each run observes the format string really passed to snprintf.",
+        design_ref="DESIGN.md section 3, C13",
+        note="Partial by construction: that libc's snprintf/strtod themselves are correct is outside the property and the model (they are uninterpreted parameters; the "
+             "harness supplies libc's actual answers). Trusted: Lean kernel + 3 axioms, Spec/FloatText.lean, the flt harness incl. its snprintf recording macro, 'C' locale.",
+        technique="Lean 4 proof of the glue around an opaque libc + differential correspondence with recorded printf formats under ASan/UBSan"),
 }
